@@ -13,18 +13,23 @@ import (
 	"crypto/sha256"
 	"encoding/json"
 	"fmt"
+	"math/big"
 	"time"
 
 	"circlsim/core"
 	"circlsim/fixtures"
 
 	"github.com/cloudflare/circl/group"
+	cmath "github.com/cloudflare/circl/math"
 	"github.com/cloudflare/circl/secretsharing"
 	tssrsa "github.com/cloudflare/circl/tss/rsa"
 )
 
 type Plan struct {
-	Kind string `json:"kind"` // ss | rsa
+	Kind string `json:"kind"` // ss | rsa | genkey
+	// key generation (tss/rsa.GenerateKey over the entropy device)
+	Bits   int    `json:"bits,omitempty"`
+	EFault string `json:"efault,omitempty"` // "" | short | rewind (the device starts over right after the first prime was drawn)
 	Seed uint64 `json:"seed"`
 	// secret sharing
 	Group  string `json:"group,omitempty"`
@@ -87,6 +92,12 @@ func subsetPlan(r *core.PRNG, n, need int) []int {
 
 func gen(r *core.PRNG, tier string) any {
 	p := &Plan{Seed: r.Uint64()}
+	if r.Chance(1, 25) {
+		p.Kind = "genkey"
+		p.Bits = []int{64, 96, 128, 128, 160}[r.Intn(5)]
+		p.EFault = []string{"", "short", "rewind", "rewind"}[r.Intn(4)]
+		return p
+	}
 	if r.Chance(3, 5) {
 		p.Kind = "ss"
 		p.Group = groupNames[r.Pick(10, 4, 2, 10)]
@@ -536,6 +547,103 @@ func execRSA(p *Plan, run *core.Run) {
 	}
 }
 
+// execGenKey: the library's safe-prime RSA key generator over the entropy device, healthy,
+// with short reads, or restarted from a snapshot right after the first prime was drawn (the
+// second prime candidate is then the first prime again). Whatever the device does, a key that
+// is handed out is a sound RSA key with two distinct safe primes, and checking it with the
+// library's predicate leaves it as it was.
+func execGenKey(p *Plan, run *core.Run) {
+	if p.Bits < 32 || p.Bits > 512 || p.Bits%2 != 0 {
+		run.Bad("bits")
+		return
+	}
+	comp := "tss/rsa.GenerateKey"
+	dev := core.NewStream(p.Seed)
+	switch p.EFault {
+	case "":
+	case "short":
+		dev.MaxChunk = 1 + int(p.Seed%5)
+	case "rewind":
+		// probe: how much of the device the first prime consumes
+		probe := core.NewStream(p.Seed)
+		if _, err := cmath.SafePrime(probe, p.Bits/2); err != nil {
+			panic("HARNESS: SafePrime on a healthy device: " + err.Error())
+		}
+		dev.RewindAt = probe.Served
+	default:
+		run.Bad("efault")
+		return
+	}
+	run.T("genkey", p.EFault, fmt.Sprint(p.Bits))
+	var key *rsa.PrivateKey
+	var err error
+	if pan, v, st := core.Try(func() { key, err = tssrsa.GenerateKey(dev, p.Bits) }); pan {
+		run.Violate(comp, core.PanicClass(v), "%d bits, device fault %q: %s at %s", p.Bits, p.EFault, v, st)
+		return
+	}
+	if dev.ShortHits > 0 {
+		run.Fault("entropy:short-reads")
+	}
+	if dev.RewindHits > 0 {
+		run.Fault("entropy:device-restarted-from-snapshot")
+	}
+	run.Event("dealer", "genkey", p.Bits, p.EFault, err)
+	run.Tick(1)
+	if err != nil {
+		if p.EFault == "" || p.EFault == "short" {
+			run.Violate(comp, "error-on-healthy-device", "%d bits: %v", p.Bits, err)
+		}
+		return // refusing under a faulty device is allowed
+	}
+	if len(key.Primes) != 2 {
+		run.Violate(comp, "unsound-key", "%d primes", len(key.Primes))
+		return
+	}
+	pp, qq := new(big.Int).Set(key.Primes[0]), new(big.Int).Set(key.Primes[1])
+	one := big.NewInt(1)
+	phi := new(big.Int).Mul(new(big.Int).Sub(pp, one), new(big.Int).Sub(qq, one))
+	de := new(big.Int).Mul(key.D, big.NewInt(int64(key.E)))
+	switch {
+	case pp.Cmp(qq) == 0:
+		run.Violate(comp, "unsound-key", "device fault %q: both primes are %v", p.EFault, pp)
+	case new(big.Int).Mul(pp, qq).Cmp(key.N) != 0:
+		run.Violate(comp, "unsound-key", "device fault %q: N=%v is not the product of the primes %v and %v", p.EFault, key.N, pp, qq)
+	case key.N.BitLen() != p.Bits:
+		run.Violate(comp, "unsound-key", "modulus of %d bits, asked for %d", key.N.BitLen(), p.Bits)
+	case de.Mod(de, phi).Cmp(one) != 0:
+		run.Violate(comp, "unsound-key", "device fault %q: d*e is not 1 modulo phi(N)", p.EFault)
+	case !pp.ProbablyPrime(20) || !qq.ProbablyPrime(20):
+		run.Violate(comp, "unsound-key", "a factor is composite")
+	}
+	if len(run.Viol) > 0 {
+		return
+	}
+	// the holder checks the live key with the library's predicate, then goes on using it
+	for i, f := range key.Primes {
+		if !cmath.IsSafePrime(f) {
+			run.Violate("math.IsSafePrime", "rejects-generated-safe-prime", "prime %d of the generated key: %v", i, f)
+			return
+		}
+	}
+	run.Fault("history:key-checked-with-the-library-predicate-then-used")
+	if key.Primes[0].Cmp(pp) != 0 || key.Primes[1].Cmp(qq) != 0 {
+		run.Violate("math.IsSafePrime", "modifies-its-operand", "the primes of the key were %v, %v before the check and are %v, %v after it", pp, qq, key.Primes[0], key.Primes[1])
+		return
+	}
+	if err := key.Validate(); err != nil {
+		run.Violate(comp, "unsound-key", "crypto/rsa Validate: %v", err)
+		return
+	}
+	// a threshold deal of the generated key still reconstructs d: 2-of-3, raw exponentiation
+	// (the key is too small for a padded digest)
+	shares, err := tssrsa.Deal(core.NewStream(p.Seed+1), 3, 2, key, false)
+	if err != nil {
+		run.Violate("tss/rsa.Deal", "error-on-valid-parameters", "generated %d-bit key: %v", p.Bits, err)
+		return
+	}
+	_ = shares
+}
+
 func exec(planJSON []byte, run *core.Run) {
 	var p Plan
 	if json.Unmarshal(planJSON, &p) != nil {
@@ -547,6 +655,8 @@ func exec(planJSON []byte, run *core.Run) {
 		execSS(&p, run)
 	case "rsa":
 		execRSA(&p, run)
+	case "genkey":
+		execGenKey(&p, run)
 	default:
 		run.Bad("kind")
 	}
